@@ -6,6 +6,7 @@ functions, initial assignments, names of generated functions, name of the genera
 -/
 import MxlVerif.Lemmas.C17
 import MxlVerif.Lemmas.C17Codegen
+import MxlVerif.Lemmas.C17Names
 namespace Mxl.C17
 open Mxl.C08
 
@@ -212,5 +213,63 @@ theorem C17_import_ia_elsewhere_dropped (pm : PModel) (key : String) (e : PExpr)
     (s : SymRepr) (hp : hasKey pm.parameters key = false) (hv : hasKey pm.variables key = false) :
     applyInits pm ((key, e) :: rest) s = applyInits pm rest s := by
   simp [applyInits, hp, hv]
+
+/-! ### the identifier mapping (pysbml `name_to_py`, modelled as `Mxl.C08.nameToPy`) -/
+
+/-- The hand-written model agrees with what `translate/c17.py` reads from the source on every run: the keyword
+    list of the interpreter, SBML_DOT, the `.replace` chain (its first entry turns SBML_DOT into "." which a later
+    entry deletes; all other entries have one-character patterns and, applied in order to any character, give
+    `replaceChar`), the escape pattern, the suffix for keywords, the prefix for a non-alphabetic first character,
+    the order of the steps; and the unused copy inside mxlpy is the same but for the empty-name guard. -/
+theorem C17_names_tables_agree :
+    pyKeywords = Gen.kwlist ∧ String.ofList sbmlDot = Gen.sbmlDot ∧
+    Gen.replaceChain.head? = some (Gen.sbmlDot, ".") ∧ replaceChar '.' = [] ∧
+    (∀ c, chainOnChar Gen.replaceChain.tail c = replaceChar c) ∧
+    Gen.escapeRegex = "__(\\d+)__" ∧ Gen.escapeIsChr = true ∧ Gen.keywordSuffix = "_" ∧ Gen.leadingPrefix = "_" ∧
+    Gen.stepOrder = ["unescape", "keywords", "replace", "empty", "leading"] ∧
+    Gen.mxlpyCopyChain = Gen.replaceChain ∧ Gen.mxlpyCopySbmlDot = Gen.sbmlDot ∧
+    Gen.mxlpyCopyEscapeRegex = Gen.escapeRegex ∧ Gen.mxlpyCopyKeywordSuffix = Gen.keywordSuffix ∧
+    Gen.mxlpyCopyLeadingPrefix = Gen.leadingPrefix ∧
+    Gen.mxlpyCopyStepOrder = ["unescape", "keywords", "replace", "leading"] :=
+  ⟨by decide +kernel, by decide +kernel, by decide +kernel, by decide +kernel, chain_agrees, by decide +kernel, rfl,
+   by decide +kernel, by decide +kernel, by decide +kernel, by decide +kernel, by decide +kernel, by decide +kernel,
+   by decide +kernel, by decide +kernel, by decide +kernel⟩
+
+/-- identifiers `[A-Za-z][A-Za-z0-9_]*` without `__` that are not keywords are left as they are -/
+theorem C17_name_identity_on_plain (s : String) (h : isRoundTripName s = true) : nameToPy s = s :=
+  nameToPy_plain s h
+
+/-- On a legal SBML identifier without `__` (not of the form `<keyword>_`) the mapping does one of three things:
+    a keyword gets an underscore appended, an identifier that starts with a letter stays, one that starts with `_`
+    gets another `_` in front.  In every case the result starts with a letter or `_`: a usable Python name. -/
+theorem C17_name_mapping_shape (s : String) (h : inNameDomain s = true) :
+    (s ∈ pyKeywords ∧ (nameToPy s).toList = s.toList ++ ['_'] ∧ ∃ c cs, s.toList = c :: cs ∧ isAsciiAlpha c = true) ∨
+    (s ∉ pyKeywords ∧ nameToPy s = s ∧ ∃ c cs, s.toList = c :: cs ∧ isAsciiAlpha c = true) ∨
+    (s ∉ pyKeywords ∧ (nameToPy s).toList = '_' :: s.toList ∧ ∃ cs, s.toList = '_' :: cs) :=
+  nameToPy_shape s h
+
+/-- **Distinct identifiers stay distinct** on legal SBML identifiers that contain no `__` and are not a keyword
+    followed by an underscore … -/
+theorem C17_name_mapping_injective (s t : String) (hs : inNameDomain s = true) (ht : inNameDomain t = true)
+    (h : nameToPy s = nameToPy t) : s = t :=
+  nameToPy_injective s t hs ht h
+
+/-- … and not on all legal identifiers (finding F-C17-10, third party): `if` / `if_`, `a__46__b` / `ab`. -/
+theorem C17_name_mapping_not_injective :
+    nameToPy "if" = nameToPy "if_" ∧ "if" ≠ "if_" ∧ isSId "if" = true ∧ isSId "if_" = true ∧
+    nameToPy "a__46__b" = nameToPy "ab" ∧ "a__46__b" ≠ "ab" ∧ isSId "a__46__b" = true ∧ isSId "ab" = true := by
+  decide +kernel
+
+/-- non-vacuity: ordinary identifiers, keywords and underscore-led identifiers are in the domain -/
+example : inNameDomain "glc_c" = true ∧ inNameDomain "lambda" = true ∧ inNameDomain "_p" = true ∧
+    inNameDomain "if_" = false ∧ inNameDomain "X__1" = false := by decide +kernel
+
+/-- **References still resolve after renaming**, at the level of one expression: a MathML tree whose identifiers
+    are renamed by `f`, read in an environment that gives every renamed identifier the value the original one had,
+    has the value of the original tree.  (Together with injectivity of `f` on the document's identifiers such an
+    environment exists; the document-level statement for `SDoc.mapNames` is exercised by the tie, not proved.) -/
+theorem C17_rename_expression_consistent (I : Interp) (f : String → String) (e1 e2 : VEnv) (m : MathML)
+    (h : ∀ n ∈ mathNames m, e2 (f n) = e1 n) : evalMath I e2 (mapMath f m) = evalMath I e1 m :=
+  evalMath_rename I f e1 e2 m h
 
 end Mxl.C17
